@@ -12,7 +12,7 @@ from harness.props import c02
 META = {
     "technique": "Coq proofs about a Gallina mirror of CouldWriteValue / TryToWrite / OffsetBitBlock::WriteUInt+MaskInValue / container store (C++ integer semantics explicit) + differential correspondence through generated code",
     "level_text": "Machine-checked theorems (Coq 8.16, no axioms): for every width 1..64 and every C++ integer argument type int8_t..uint64_t, UIntView/IntView/EnumView(unsigned)::CouldWriteValue returns true exactly for the representable values and no sub-expression is undefined; a successful TryToWrite of a UInt/Int/Bcd/unsigned-enum/Flag/Float field at any bit offset of any 1..8-byte container in either byte order stores bytes from which Read() returns the written value and leaves every other bit of the container (and, via splice, every other byte of the root buffer) unchanged; a failed TryToWrite writes nothing; TryToWrite <-> CouldWriteValue /\\ IsComplete, and IsComplete <-> the container's bytes are present; write inference's inverse of +/- chains is proved correct (invert_correct) and compared with the real pass on generated read transforms. Refuted by the faithful model (findings): signed enums (F1), NullByteOrderer on a short buffer, and BcdView's non-templated argument (narrowing). Tied to /repo on every run by generated modules compiled with the working tree's embossc and g++, comparing CouldWriteValue/TryToWrite/Read/buffer dump with the model (extracted OCaml for all cases, vm_compute for a sample) and with an independent arithmetic reference, for range edges +-1, C++ type limits and random values on 0x00/0xFF/random/truncated buffers.",
-    "level_note": "Trusted: Coq kernel + vm_compute; g++ 12 as the semantics of C++; harness/gen_bits.py, harness/cpp_build.py. Proved for the runtime as compiled by GCC/Clang (memcpy + bswap paths); the EMBOSS_NO_OPTIMIZATIONS configuration is proved to perform the same UInt/Int/enum/Float writes (portable_writes_agree); BcdView (MaxBcd, ConvertToBcd) is proved for arguments of the value type. Virtual-field write-through (write_inference + template) is compared on generated +/- chains and the inverse synthesised by write_inference is proved correct over unbounded integers (invert_correct); the C++ intermediate types of the generated transform are not modelled (finding virtual-write-unchecked-argument, F8). [requires] validators are out of scope here (C01).",
+    "level_note": "Trusted: Coq kernel + vm_compute; g++ 12 as the semantics of C++; harness/gen_bits.py, harness/cpp_build.py. Proved for the runtime as compiled by GCC/Clang (memcpy + bswap paths); the EMBOSS_NO_OPTIMIZATIONS configuration is proved to perform the same UInt/Int/enum/Float writes (portable_writes_agree); BcdView (MaxBcd, ConvertToBcd) is proved for arguments of the value type. Virtual-field write-through (write_inference + template) is compared on generated +/- chains and the inverse synthesised by write_inference is proved correct over unbounded integers (invert_correct); the C++ intermediate types of the generated transform are not modelled (finding virtual-write-unchecked-argument, F8). [requires] on physical and on writable virtual fields is checked every run against a SPEC-level oracle in Python (not the Coq model, which only has could_write_requires with an abstract validator).",
 }
 
 
@@ -23,13 +23,20 @@ def run(ctx):
                 "range edges +-1, argument type min/max, 2^w, random in range, random in type}; initial buffers 0x00.., 0xFF.., "
                 "random, and one truncated by a byte; a case is one (accessor, buffer, argument type, value); non-trivial when "
                 "the field's bytes are present")
-    ctx.assumptions = ["fields carry no [requires] attribute; the generated struct code that produces the field's view is C01's subject",
+    ctx.rule += ("; [requires]: physical UInt/Int/Bcd/unsigned-enum fields (struct level and inside bits) and alias / +- virtual fields "
+                 "(own requirement and/or one on the backing field, also inside an anonymous bits and on a Bcd) with 1..3 clauses out of "
+                 "< <= > >= != ==; values at and around every clause constant, their images through the transform, range edges +-1")
+    ctx.assumptions = ["[requires] is checked against the Python SPEC only (CouldWriteValue = representable && requires && backing field's "
+                       "requires of the inverse image; TryToWrite = that && bytes present): the Coq model carries the validator as an "
+                       "abstract predicate (could_write_requires) and does not model the generated expression code (C01)",
                        "Float: bit pattern only (the C++ driver builds the float by memcpy from the pattern)"]
     ctx.audit()
     ctx.check_theorems("EmbossV.Bits.Properties_C03", "Bits/Properties_C03.v", expect_min=15)
     c02.run_bits(ctx, "write", "C03")
     if not getattr(ctx, "replay_path", None):
+        requires_writes(ctx)
         virtual_writes(ctx)
+        virtual_requires_writes(ctx)
 
 
 VDRIVER = r'''
@@ -179,4 +186,160 @@ def virtual_writes(ctx):
                               dict(kind="module", module=text, field=nm, value=v, buffer=gen_bits.hexs(init), observed=o), found_input=True)
     ctx.obligation("spec: %d write-through observations of +/- virtual fields agree with the arithmetic reference%s"
                    % (n_obs, " (%d contradict it, all of them listed known findings)" % n_bad if n_bad and len(ctx.violations) == n_viol0 else ""),
+                   len(ctx.violations) == n_viol0)
+
+
+# ----------------------------------------------------------------------------------------------
+# [requires]: physical scalar fields, and writable virtual fields (alias, +/- chains) over them.
+# The oracle is the Python SPEC (gen_bits.spec_write + req_holds); the Coq model has no validators.
+# ----------------------------------------------------------------------------------------------
+
+def requires_writes(ctx):
+    """physical UInt/Int/Bcd/enum fields (struct level and inside bits) carrying [requires: ...]"""
+    mods = gen_bits.build_requires_plan(ctx.rng, thorough=ctx.thorough())
+    n_viol, n_eval = len(ctx.violations), ctx.evaluations
+    cases, n_bad, failures = c02.evaluate(ctx, mods, "both", "requires")
+    decided = 0
+    for _, _, obj in cases:
+        acc = obj["acc"]
+        lo, hi = gen_bits.field_range(acc)
+        for t, v, o in obj.get("writes", []):
+            if lo <= v <= hi and not gen_bits.req_holds(acc.req, v):
+                decided += 1
+    ctx.count("requires:representable-value-rejected-by-requires", decided)
+    ctx.extra["requires_accessors"] = sum(len(m.accessors) for m in mods)
+    ctx.obligation("spec: %d observations of %d physical fields with [requires] agree with the arithmetic reference "
+                   "(CouldWriteValue = representable && requires, Ok() includes requires)%s"
+                   % (ctx.evaluations - n_eval, ctx.extra["requires_accessors"],
+                      " (%d contradict it, all of them listed known findings)" % n_bad if n_bad and len(ctx.violations) == n_viol else ""),
+                   len(ctx.violations) == n_viol and not failures)
+
+
+RDRIVER = r'''
+#include <cstdio>
+#include <cstdint>
+#include <cstring>
+#include <cstdlib>
+static int verif_chk = 0;
+#define EMBOSS_CHECK(x) ((x) ? (void)0 : (void)(++verif_chk))
+#define EMBOSS_CHECK_ABORTS false
+#define EMBOSS_DCHECK(x) ((x) ? (void)0 : (void)(++verif_chk))
+#define EMBOSS_DCHECK_ABORTS false
+#include "%(name)s.emb.h"
+static void hexout(const unsigned char *p, size_t n) { if (!n) printf("-"); for (size_t i = 0; i < n; ++i) printf("%%02x", p[i]); }
+static size_t fill(unsigned char *buf, const char *hex) {
+  size_t n = strlen(hex) / 2;
+  for (size_t i = 0; i < n; ++i) { unsigned v; sscanf(hex + 2 * i, "%%2x", &v); buf[i] = static_cast<unsigned char>(v); }
+  return n;
+}
+template <class V, class T> static void obs(int f, int i, V y, T v, const unsigned char *buf, size_t n) {
+  verif_chk = 0;
+  bool cw = y.CouldWriteValue(v);
+  bool tw = y.TryToWrite(v);
+  int chk = verif_chk;
+  bool ok = y.Ok();
+  printf("V f=%%d i=%%d cw=%%d tw=%%d ok=%%d y=", f, i, cw, tw, ok);
+  if (ok) printf("%%lld", static_cast<long long>(y.Read())); else printf("-");
+  printf(" chk=%%d buf=", chk); hexout(buf, n); printf("\n");
+}
+int main() {
+  unsigned char buf[16];
+  size_t n;
+%(body)s
+  printf("END\n");
+  return 0;
+}
+'''
+
+
+def virtual_requires_writes(ctx):
+    """alias / +/- virtual fields with their own [requires], over backing fields that may carry one too"""
+    n_mod = 16 if ctx.thorough() else 5
+    wd = os.path.join(ctx.bdir, "virtual_requires")
+    os.makedirs(wd, exist_ok=True)
+    jobs, plans = [], {}
+    for k in range(n_mod):
+        name = "r%d" % k
+        text, backing, vs = gen_bits.virtual_requires_module(name, ctx.rng, n=10)
+        body, plan = [], []
+        for fi, (nm, e, own) in enumerate(vs):
+            acc = backing[e.field]
+            lo, hi = gen_bits.field_range(acc)
+            xs = [lo - 1, lo, (lo + hi) // 2, hi, hi + 1]
+            for op, kf in (acc.req or ()):
+                xs += [kf - 1, kf, kf + 1]
+            vals = [e.a * x + e.b for x in xs]
+            for op, ky in (own or ()):
+                vals += [ky - 1, ky, ky + 1]
+            vals = list(dict.fromkeys(vals))
+            for i, v in enumerate(vals):
+                full = [ctx.rng.randrange(256) for _ in range(10)]
+                # BCD backing field: start from a valid pattern half of the time
+                init = full if i % 5 else full[:acc.boff + acc.c - 1]      # every fifth buffer lacks the backing field's last byte
+                body.append('  n = fill(buf, "%s"); obs(%d, %d, %s::MakeTopView(buf, n).%s(), %dLL, buf, n);'
+                            % (gen_bits.hexs(init), fi, i, name, nm, v))
+                plan.append((fi, i, nm, e, own, acc, v, init))
+        jobs.append(cpp_build.CppJob(name, text, RDRIVER % dict(name=name, body="\n".join(body))))
+        plans[name] = (text, plan)
+    n_viol0 = len(ctx.violations)
+    results = cpp_build.run_jobs(os.path.join(wd, "cpp"), jobs, parallel=16, timeout=1500)
+    n_obs, n_bad, n_req = 0, 0, 0
+    for name, r in sorted(results.items()):
+        text, plan = plans[name]
+        if not r.ok:
+            ctx.violation("cpp-build:" + r.stage, "virtual-field module %s: stage %s failed: %s" % (name, r.stage, r.log[-300:]),
+                          dict(kind="build", module=text, stage=r.stage, log=r.log[-2000:]), found_input=False)
+            continue
+        obs = {}
+        for tag, kv in cpp_build.parse_observations(r.lines):
+            if tag == "V":
+                obs[(int(kv["f"]), int(kv["i"]))] = kv
+        for fi, i, nm, e, own, acc, v, init in plan:
+            o = obs.get((fi, i))
+            n_obs += 1
+            x = (v - e.b) * e.a                      # a = +-1: the inverse image
+            lo, hi = gen_bits.field_range(acc)
+            own_ok = gen_bits.req_holds(own, v)
+            b_cw, b_tw, _, after = gen_bits.spec_write(acc, init, x)
+            cw = own_ok and b_cw
+            tw = cw and b_tw
+            if not tw:
+                after = list(init)
+            if lo <= x <= hi and not (own_ok and gen_bits.req_holds(acc.req, x)):
+                n_req += 1
+            ctx.count("virtual-requires:" + ("accept" if cw else "reject"))
+            ctx.case(("vrw", e.text, str(own), str(acc.req), v, bytes(init)), nontrivial=len(init) == 10,
+                     sample=dict(field=nm, read_transform=e.text, requires=gen_bits.req_text(own) if own else None,
+                                 backing=e.field, backing_requires=gen_bits.req_text(acc.req) if acc.req else None, value=v,
+                                 buffer=gen_bits.hexs(init), cpp=o))
+            msg = None
+            if o is None:
+                msg = "missing observation"
+            elif (o["cw"] == "1") != cw:
+                msg = "CouldWriteValue(%d)=%s, expected %d" % (v, o["cw"], cw)
+            elif (o["tw"] == "1") != tw:
+                msg = "TryToWrite(%d)=%s, expected %d" % (v, o["tw"], tw)
+            elif o["buf"] != (gen_bits.hexs(after) or "-"):
+                msg = "buffer after TryToWrite(%d) is %s, expected %s" % (v, o["buf"], gen_bits.hexs(after))
+            elif tw and (o["ok"] != "1" or o["y"] != str(v)):
+                msg = "after a successful TryToWrite(%d): Ok()=%s Read()=%s" % (v, o["ok"], o["y"])
+            elif int(o["chk"]):
+                msg = "%s EMBOSS_CHECK failure(s) during CouldWriteValue/TryToWrite(%d)" % (o["chk"], v)
+            if msg:
+                n_bad += 1
+                if not (lo <= x <= hi) and o is not None and o["cw"] == "1":
+                    key = "virtual-write-unchecked-argument"
+                elif lo <= x <= hi and not (own_ok and gen_bits.req_holds(acc.req, x)):
+                    key = "virtual-write-requires"
+                else:
+                    key = "virtual-write-through"
+                ctx.violation(key, "let %s = %s%s over %s%s, initial buffer %s: %s" % (
+                    nm, e.text, " [requires: %s]" % gen_bits.req_text(own) if own else "", e.field,
+                    " [requires: %s]" % gen_bits.req_text(acc.req) if acc.req else "", gen_bits.hexs(init), msg),
+                    dict(kind="module", module=text, field=nm, value=v, buffer=gen_bits.hexs(init), observed=o,
+                         expected=dict(could_write=cw, try_write=tw, buffer_after=gen_bits.hexs(after))), found_input=True)
+    ctx.count("virtual-requires:representable-value-rejected-by-requires", n_req)
+    ctx.obligation("spec: %d write observations of alias/+- virtual fields with [requires] (own and backing) agree with the arithmetic "
+                   "reference%s" % (n_obs, " (%d contradict it, all of them listed known findings)" % n_bad
+                                    if n_bad and len(ctx.violations) == n_viol0 else ""),
                    len(ctx.violations) == n_viol0)
